@@ -2,6 +2,7 @@ import ArcSwapModel.M.Driver
 import ArcSwapModel.KindsDriver
 import ArcSwapModel.AutoTraits
 import ArcSwapModel.SerdeM
+import ArcSwapModel.CacheM
 open M
 
 /-- `driver <exec-file>`: replays every execution of the file on `M`. -/
@@ -38,6 +39,21 @@ def main (args : List String) : IO UInt32 := do
     let text ← IO.FS.readFile path
     for l in text.splitOn "\n" do
       if l.startsWith "case " then IO.println (SerdeM.caseLine l)
+    return 0
+  | ["cache", path] =>
+    let text ← IO.FS.readFile path
+    let mut cur : List String := []
+    let mut a0 := 0
+    for l in text.splitOn "\n" do
+      if l.startsWith "exec " then
+        IO.println l
+        cur := []
+        a0 := (((l.splitOn "a0=").getD 1 "0").trimAscii.toString.toNat?).getD 0
+      else if l.startsWith "ev " then
+        cur := cur ++ [(((l.drop 3).toString.splitOn " | ").getD 0 "")]
+      else if l == "endexec" then
+        for o in CacheM.runLines a0 cur do IO.println o
+        IO.println "endexec"
     return 0
   | ["autotraits"] =>
     for l in AutoTraits.tableLines do IO.println l
